@@ -608,6 +608,11 @@ impl<'r> Gen<'r> {
                 } else {
                     self.item_for(fd.name, &fd.ty, depth, post)
                 };
+                let mut it = it;
+                if self.rng.pct(3) {
+                    // `::name` is the same name to darling (a leading `::` is not part of it)
+                    it.name = format!("::{}", it.name);
+                }
                 out.push(Nested::Item(it));
             }
             // repeated name
